@@ -7,6 +7,7 @@ EXPLANATION = ("R-ORDER write-before-publish in spmc push; R-EXIT a taker reads 
                "an observation that the slot is published; R-PAIR every successful claim ends in exactly one mark_slots_read (or the "
                "restore-head path) and a block is freed only by the taker that read its last slot; no task is dropped on a normal "
                "path of push/pop/steal_into; R-MO floors; R-WHO owner confinement of the Local side (shared with C01)")
+EXPLANATION_2 = ('spmc packed head word (new head is pack(block,id+1) or head|lock exactly at the block end; lock released on every path; plain store only under the lock; advance to block.next only behind pop_index < push_index; bulk_pop: next iff the copied range ends the block); strict publication (`<` for a slot, `<=` only for an exclusive range end); local_pop gives up an unpublished claim by tail.index+1; push links a new block iff the next index is aligned')
 NOT_DECIDED = "exactly-once under concurrent stealers; the over-claim/restore protocol; ABA after a block is freed and re-allocated; `used` accounting values"
 CONFIGS_QUICK = ["default"]
 CONFIGS_THOROUGH = ["default", "rand"]
